@@ -414,6 +414,7 @@ def gen_(rs: int, index: int, tier: str) -> Dict[str, Any]:
         "faults": faults_applied,
         "entries": entries,
         "padding": re_.choice([0, 8]),
+        "probe_send_failures": (re_.choice([1, 2, 3]) if re_.random() < 0.05 else 0),
         "text": {"style": rt.randint(0, 31), "crlf": rt.random() < 0.2, "last_newline": rt.random() < 0.8,
                  # lines that are not frames of a monitored ID (comments, blank and cut-short lines): [before frame k, text]
                  "noise": [[rt.randint(0, max(0, len(allf))), rt.choice(c12.TEXT_NOISE)]
@@ -747,6 +748,14 @@ def execute(trace: Dict[str, Any]) -> Dict[str, Any]:
         if res.raised is not None:
             log.ev(res.name, "raised", exc_sig(res.raised[1]))
         violations += vs
+    if trace.get("probe_send_failures") and len(tx_ids) >= len(monitored):
+        # transmit faults are observed, not judged (the statement quantifies over received frames)
+        obs = W.probe_send_failures(frames, monitored, tx_ids, int(trace["probe_send_failures"]), trace.get("padding", 0))
+        for k_, v_ in obs.items():
+            if v_:
+                probes["txfault_" + k_] = probes.get("txfault_" + k_, 0) + v_
+        faults["transmit_failure(observed only)"] = faults.get("transmit_failure(observed only)", 0) + obs["send_failures_injected"]
+        log.ev("sim", "txfault-probe", obs)
     seen = set()
     ref_seen = set()
     uniq = []
